@@ -731,9 +731,23 @@ func (r *rewriter) selectStmt(s *ast.SelectStmt, points bool) ast.Stmt {
 			sw.Body.List = append(sw.Body.List, &ast.CaseClause{List: []ast.Expr{&ast.UnaryExpr{Op: token.SUB, X: &ast.BasicLit{Kind: token.INT, Value: "1"}}}, Body: body})
 			continue
 		}
+		if snd, ok := cc.Comm.(*ast.SendStmt); ok {
+			// case ch <- v: channel and value are evaluated on entry, in source order, like Go does
+			label := &ast.BasicLit{Kind: token.INT, Value: strconv.Itoa(idx)}
+			idx++
+			r.tmp++
+			ch := ast.NewIdent(fmt.Sprintf("_vs%d", r.tmp))
+			r.tmp++
+			val := ast.NewIdent(fmt.Sprintf("_vs%d", r.tmp))
+			pre = append(pre, &ast.AssignStmt{Lhs: []ast.Expr{ch}, Tok: token.DEFINE, Rhs: []ast.Expr{r.expr(snd.Chan)}},
+				&ast.AssignStmt{Lhs: []ast.Expr{val}, Tok: token.DEFINE, Rhs: []ast.Expr{r.expr(snd.Value)}})
+			cases = append(cases, call(sel(ch, "SendCase"), val))
+			sw.Body.List = append(sw.Body.List, &ast.CaseClause{List: []ast.Expr{label}, Body: body})
+			continue
+		}
 		u := commRecv(cc.Comm)
 		if u == nil {
-			r.errorf(cc.Pos(), "select arm that is not a receive")
+			r.errorf(cc.Pos(), "select arm that is neither a send nor a receive")
 			continue
 		}
 		label := &ast.BasicLit{Kind: token.INT, Value: strconv.Itoa(idx)}
